@@ -14,7 +14,7 @@ def load(name):
     return mod
 
 
-OUTPUTS = {"queries2coq": "QueryShapes.v", "status2coq": "StatusTables.v", "keys2coq": "KeysGen.v", "wiring2coq": "Wiring.v"}
+OUTPUTS = {"queries2coq": "QueryShapes.v", "status2coq": "StatusTables.v", "keys2coq": "KeysGen.v", "wiring2coq": "Wiring.v", "params2coq": "ParamRules.v"}
 
 
 def stub(name, why):
@@ -30,7 +30,7 @@ def stub(name, why):
 
 def main():
     rc = 0
-    for name in ("queries2coq", "status2coq", "keys2coq", "wiring2coq"):
+    for name in ("queries2coq", "status2coq", "keys2coq", "wiring2coq", "params2coq"):
         if not os.path.exists(os.path.join(T, name + ".py")):
             continue
         why = ""
